@@ -231,12 +231,46 @@ class Edits:
             segs.append((self.src[pos:self.hi], pos))
         return segs
 
+_tok_cache = {}
+def _toks_of(src):
+    k = id(src)
+    if k not in _tok_cache or _tok_cache[k][0] is not src:
+        _tok_cache[k] = (src, rlex.lex(src))
+    return _tok_cache[k][1]
+
 def find_text(src, lo, hi, needle, nth, what, allow_ws=True):
-    """find exact text in src[lo:hi] (whitespace-run-insensitive), return (start,end). nth: int or 'all' """
-    # build regex: collapse whitespace runs in needle to \s+ ; also allow optional whitespace around
-    parts = [re.escape(p) for p in needle.split()]
-    rx = re.compile(r"\s+".join(parts)) if allow_ws else re.compile(re.escape(needle))
-    ms = [(m.start(), m.end()) for m in rx.finditer(src, lo, hi)]
+    """find `needle` in src[lo:hi], return (start,end). Matching is by TOKEN SEQUENCE (insensitive to whitespace,
+    line breaks and comments between tokens); if the needle does not lex, fall back to whitespace-insensitive text search.
+    nth: 0 = must be unique, n = n-th occurrence, 'all', 'last'"""
+    ms = None
+    try:
+        nt = [t.text for t in rlex.lex(needle)]
+        if nt:
+            toks = _toks_of(src)
+            # tokens fully inside [lo, hi)
+            import bisect
+            starts = [t.start for t in toks]
+            a = bisect.bisect_left(starts, lo)
+            ms = []
+            k = a
+            n = len(nt)
+            while k + n <= len(toks) and toks[k + n - 1].end <= hi:
+                if toks[k].text == nt[0]:
+                    ok = True
+                    for d in range(1, n):
+                        if toks[k + d].text != nt[d]:
+                            ok = False; break
+                    if ok:
+                        ms.append((toks[k].start, toks[k + n - 1].end))
+                        k += n
+                        continue
+                k += 1
+    except rlex.LexError:
+        ms = None
+    if ms is None:
+        parts = [re.escape(p) for p in needle.split()]
+        rx = re.compile(r"\s+".join(parts))
+        ms = [(m.start(), m.end()) for m in rx.finditer(src, lo, hi)]
     if nth == "all":
         return ms
     if nth == "last":
